@@ -5,7 +5,7 @@ and optimizer state of runs 0 and 2, and the weights found in every file of the 
 a freshly built identical model."""
 import os, shutil, tempfile, torch
 import torchphysics as tp
-from .common import main, watched
+from .common import main, watched, pick
 from . import c07
 
 
@@ -19,16 +19,16 @@ def load_ab(path, cfg):
 
 
 def run_one(s):
-    cfg = dict(s["cfg"], tied=(s["tid"] % 2 == 0))
+    cfg = dict(s["cfg"], tied=(pick(s["tid"], 2, 1) == 0))
     N, ck, kill = cfg["N"], cfg["ckint"], cfg["kill"]
     base = os.environ.get("VERIF_TMP") or None
     wd = tempfile.mkdtemp(prefix="c19-", dir=base)
     tr = {"exc": "", "files": {}, "files2": {}, "filesr": {}}
     # every second scenario: ONE OptimizerSetting object for the Solvers of all three runs (as a script does that defines it once)
-    setting = c07.mk_setting(cfg) if s["tid"] % 2 == 1 else None
+    setting = c07.mk_setting(cfg) if pick(s["tid"], 2, 2) == 1 else None
     # callback / file names: plain, or (every third scenario) with a dot in it, as in "run_lr0.01"
-    wname = "w_lr0.5" if s["tid"] % 3 == 0 else "w"
-    sname = "state_v1.2" if s["tid"] % 3 == 0 else "state"
+    wname = "w_lr0.5" if pick(s["tid"], 3, 3) == 0 else "w"
+    sname = "state_v1.2" if pick(s["tid"], 3, 3) == 0 else "state"
     try:
         def run0():
             keep = {}
